@@ -863,6 +863,14 @@ func (c *c32Checker) patch(fi, ti int) {
 	}
 	for _, cd := range cands {
 		from, to := cd.from, cd.to
+		if cd.rename && c32PKChanged(from, to) {
+			c.st.pkSkipped++
+			return
+		}
+		if cd.rename && c32Narrows(from, to) {
+			c.st.narrowSkipped++
+			return
+		}
 		shape := ""
 		switch {
 		case cd.rename && c32ShapeRenameDropIdx(from, to) && c32Excluded(c32FRenameDropIdx):
